@@ -11,7 +11,7 @@ use crate::rm::decide::{Stage, Verdict};
 use crate::rm::lower;
 use crate::run::{finish, preflight, Ctx, Report, Tally, Tier};
 
-pub const NEUTRAL: [&str; 11] = [
+pub const NEUTRAL: [&str; 12] = [
     "long-inner-space-run",
     "name-case",
     "reorder-different-names",
@@ -20,6 +20,7 @@ pub const NEUTRAL: [&str; 11] = [
     "add-unsigned-header",
     "add-unsigned-near-requirement",
     "add-unsigned-special-name",
+    "add-unsigned-other-carrier-input",
     "remove-unsigned-header",
     "alter-unsigned-header",
     "duplicate-unsigned-header",
@@ -259,6 +260,26 @@ fn child(kind: &str, r: &mut Rng, parent: &Case, signed: &[String]) -> Option<Ca
                 _ => name.to_string(),
             };
             h.insert(pos, (spelled.into_bytes(), value.into_bytes()));
+        }
+        "add-unsigned-other-carrier-input" => {
+            // a presigned URL is authenticated by its query parameters alone: the headers through which the *other* carrier
+            // would hand over a timestamp or a session token are ordinary headers to it (unsigned here, so without influence)
+            let presigned = parent.wire.uri.windows(16).any(|w| w.eq_ignore_ascii_case(b"X-Amz-Algorithm=")) && !h.iter().any(|(n, _)| lower(n) == "authorization");
+            if !presigned {
+                return None;
+            }
+            let (name, value): (&str, Vec<u8>) = match r.below(5) {
+                0 => ("x-amz-security-token", crate::gen::gen_token(r).into_bytes()),
+                1 => ("x-amz-security-token", Vec::new()),
+                2 => ("x-amz-date", b"20110909T233600Z".to_vec()),
+                3 => ("x-amz-date", b"junk".to_vec()),
+                _ => ("date", b"Mon, 09 Sep 2011 23:36:00 GMT".to_vec()),
+            };
+            if h.iter().any(|(n, _)| lower(n) == name) || signed.iter().any(|s| *s == name) || required_by(&parent.cfg.reqs, name) {
+                return None;
+            }
+            let pos = r.usize_below(h.len() + 1);
+            h.insert(pos, (name.as_bytes().to_vec(), value));
         }
         "add-unsigned-header" => {
             let name = format!("x-verif-unsigned-{}", r.below(4));
@@ -658,14 +679,20 @@ pub fn run(tier: Tier) -> i32 {
         ctx.gate("second and later signed-subset questions to one CanonicalRequest (crate's unstable API) answered with the reference header block", tally.get("later_subset_questions_answered_with_the_reference_block"), tier.n(3000, 150_000));
     }
     for k in NEUTRAL {
-        ctx.gate(&format!("neutral change '{}' accepted", k), tally.get(&format!("neutral_accepted/{}", k)), tier.n(1000, 5000));
+        // (the other-carrier kind applies to presigned parents whose algorithm parameter is spelled plainly in the URL only)
+        let need = if k == "add-unsigned-other-carrier-input" {
+            tier.n(400, 3000)
+        } else {
+            tier.n(1000, 5000)
+        };
+        ctx.gate(&format!("neutral change '{}' accepted", k), tally.get(&format!("neutral_accepted/{}", k)), need);
     }
     for k in BINDING {
         ctx.gate(&format!("binding change '{}' refused at the signature comparison", k), tally.get(&format!("binding_refused/{}", k)), tier.n(500, 5000));
     }
     let rep = Report {
         level: "exploration",
-        rule: "W-sign parents with up to 8 extra headers (visible ASCII, 0x80–0xFF, inner spaces, repeated names with 2–4 values) and random signed subsets; children by one wire-level change: neutral (name letter case, order between different names, outer spaces / longer inner space runs (up to 200 spaces) in signed values, unsigned-unrequired-unconsulted headers added / removed / altered / duplicated; every other parent is validated by a service that declares always-required, required-if-present and prefix requirements, and a header is added whose name is a near miss of a declared one: a proper prefix of a declared prefix, a declared name plus or minus a letter; an unsigned header that means something to S3, to proxies or to the other carrier — x-amz-content-sha256 with a real digest / UNSIGNED-PAYLOAD, content-md5, expect, x-amz-expires, x-amz-credential … — with the value it really carries) — must stay accepted; binding (every line of a signed header removed — also when its value was empty or blank —, a byte / an extra line of a signed Host, Content-Type or token header, Host with or without a default port or trailing dot, a byte of a signed value, appended byte, swap of two values of one signed name, dropped or duplicated value, a space moved into a token, an inner space removed, TAB for space) — must be refused. Plus, through the crate's `unstable` API, one CanonicalRequest asked for its canonical form and digest under 2–4 signed subsets in a row, each compared with the reference block for that subset. Two oracles: the parent/child relation (model-free; for neutral children also the provider's call arguments and the returned identity must equal the parent's) and the reference header block. Non-trivial = neutral child accepted / binding child refused with the signature-mismatch class; distinct by case hash.".into(),
+        rule: "W-sign parents with up to 8 extra headers (visible ASCII, 0x80–0xFF, inner spaces, repeated names with 2–4 values) and random signed subsets; children by one wire-level change: neutral (name letter case, order between different names, outer spaces / longer inner space runs (up to 200 spaces) in signed values, unsigned-unrequired-unconsulted headers added / removed / altered / duplicated; every other parent is validated by a service that declares always-required, required-if-present and prefix requirements, and a header is added whose name is a near miss of a declared one: a proper prefix of a declared prefix, a declared name plus or minus a letter; an unsigned header that means something to S3, to proxies or to the other carrier — x-amz-content-sha256 with a real digest / UNSIGNED-PAYLOAD, content-md5, expect, x-amz-expires, x-amz-credential … — with the value it really carries; on presigned URLs, an unsigned token / date header of the header carrier) — must stay accepted; binding (every line of a signed header removed — also when its value was empty or blank —, a byte / an extra line of a signed Host, Content-Type or token header, Host with or without a default port or trailing dot, a byte of a signed value, appended byte, swap of two values of one signed name, dropped or duplicated value, a space moved into a token, an inner space removed, TAB for space) — must be refused. Plus, through the crate's `unstable` API, one CanonicalRequest asked for its canonical form and digest under 2–4 signed subsets in a row, each compared with the reference block for that subset. Two oracles: the parent/child relation (model-free; for neutral children also the provider's call arguments and the returned identity must equal the parent's) and the reference header block. Non-trivial = neutral child accepted / binding child refused with the signature-mismatch class; distinct by case hash.".into(),
         assumptions: vec!["'spaces' means 0x20 exactly; TAB is an ordinary value byte (DESIGN §6)".into()],
         extra: J::obj().set("calibrated_vectors", J::i(pre.unwrap_or(0) as i64)),
     };
